@@ -175,6 +175,11 @@ func migrateScenarios(thorough bool) []mspec {
 	multi("2+3", 0, "even", "serial", 1)
 	multi("2+3", 1, "even", "free", freeReps)
 	multi("2+3+2", 1, "even", "free", 1)
+	// a request redirected twice: the data centre it is repeated at (2, at B) redirects it again (3, at C); one migrating caller (with several, the
+	// requests of the others are legitimately repeated wherever the client is at the moment), with and without a ping caller
+	multi("2>3", 0, "even", "free", 1)
+	multi("2>3", 1, "odd", "serialans", 1)
+	multi("12>3", 0, "odd", "free", 1)
 	// the same on ONE processor, with two and three other calls in flight
 	for _, n := range []int{2, 3} {
 		l = append(l, mspec{setup: "direct", code: 303, text: "PHONE_MIGRATE_2", seq: "even", inflight: n, answerB: "obj", sched: "free", procs: 1})
